@@ -19,7 +19,7 @@ proven, typed or audited as an operating-system condition / a fact guaranteed by
 (3) Validation covers use: seed length, fault ratio and interface:port preconditions of Server::new are implied by is_valid_config, and workers are spawned only
 after it returned true.  (4) Worker provisioning: the spawn loop runs 0..num_workers, each iteration binds its own socket and names its thread.
 (5) Health check: the handler writes the constant documented response; the listener is registered only when a port is configured; registration is level-triggered or
-the handler accepts until WouldBlock.  (6) /repo/example.cfg (parsed as data): every key is a documented YAML key, every value is within the documented range.
+the handler accepts until WouldBlock.  (7) Started workers keep serving: the panic obligations of the serving path (C08) hold.  (6) /repo/example.cfg (parsed as data): every key is a documented YAML key, every value is within the documented range.
 """
 ASSUMPTIONS = ["the release configuration is analysed (-C debug-assertions=off, overflow checks kept as obligations): debug_assert!() and cfg(debug_assertions) code is compiled out and not part of the decided behaviour"]
 NOT_DECIDED = "that workers stay alive and replies arrive (process liveness, thread timing)"
@@ -285,6 +285,18 @@ def run(ctx):
     req = set(sp["config"]["required"])
     have = set(re.findall(r"^([A-Za-z_]+):", txt, re.M))
     ctx.check("example-cfg", "required-settings-present", req <= have, "example.cfg sets %s" % sorted(req), "example.cfg lacks %s" % sorted(req - have))
+
+    # "a fully serving server": the workers that were started keep serving.  The panic obligations of the serving path (C08: nothing a datagram
+    # sequence can do kills a worker) are obligations of C15 too - a worker that dies after N full batches leaves a documented configuration
+    # (small batch_size) with fewer serving workers than configured.
+    import importlib
+    from framework import Ctx
+    c8 = importlib.import_module("rules.C08")
+    sub8 = Ctx("C08", P, ctx.repo, "quick", ctx.feature)
+    c8.run(sub8)
+    bad8 = [i for i in sub8.instances if not i["ok"]]
+    ctx.check("keeps-serving", "no-worker-dies-while-serving(C08)", not bad8, "no reachable panic in a worker's serving code (C08 obligations hold: %d instances)" % len(sub8.instances),
+              "a started worker can die while serving: " + (bad8[0]["detail"] if bad8 else ""), bad8[0].get("loc") if bad8 else None)
 
 
 def fixture(fctx):
